@@ -73,6 +73,8 @@ type SimStore struct {
 	failNth map[string]int   // kind -> fail when this many operations of the kind have been seen (once)
 	kindCnt map[string]int
 	nthErr  map[string]error
+	fenceAfter int // >0: fence the store after this many more successful commits
+	dir     string // non-empty: badger on this directory (real close / reopen)
 	fired   []Site
 	opCount int
 
@@ -87,15 +89,17 @@ type SimStore struct {
 	// NoLog disables the durable log (used where restarts are not simulated).
 }
 
-func newBaseStore() corekv.TxnStore {
-	opts := badgerds.DefaultOptions("").WithInMemory(true).WithLoggingLevel(badgerds.ERROR)
+func newBaseStore() corekv.TxnStore { return newBaseStoreAt("") }
+
+func newBaseStoreAt(dir string) corekv.TxnStore {
+	opts := badgerds.DefaultOptions(dir).WithInMemory(dir == "").WithLoggingLevel(badgerds.ERROR)
 	opts.NumCompactors = 2
 	opts.NumGoroutines = 1
 	opts.MemTableSize = 8 << 20
 	opts.ValueLogFileSize = 1 << 26
 	opts.BlockCacheSize = 1 << 20
 	opts.NumMemtables = 2
-	s, err := badger.NewDatastore("", opts)
+	s, err := badger.NewDatastore(dir, opts)
 	if err != nil {
 		panic(err)
 	}
@@ -107,9 +111,42 @@ func NewSimStore() *SimStore {
 	return &SimStore{base: newBaseStore(), log: &durableLog{}, occ: map[string]int{}, failAt: map[string]error{}}
 }
 
+// NewSimStoreDir creates a store whose base is badger on a directory.
+func NewSimStoreDir(dir string) *SimStore {
+	return &SimStore{base: newBaseStoreAt(dir), log: &durableLog{}, occ: map[string]int{}, failAt: map[string]error{}, dir: dir}
+}
+
+// FenceAfterCommits fences the store right after the c-th successful commit from now (crash at a commit boundary).
+// c == 0 fences at once.
+func (s *SimStore) FenceAfterCommits(c int) {
+	s.mu.Lock()
+	if c <= 0 {
+		s.fenced = true
+	} else {
+		s.fenceAfter = c
+	}
+	s.mu.Unlock()
+}
+
+func (s *SimStore) committed() {
+	s.mu.Lock()
+	if s.fenceAfter > 0 {
+		s.fenceAfter--
+		if s.fenceAfter == 0 {
+			s.fenced = true
+		}
+	}
+	s.mu.Unlock()
+}
+
 // Reopen builds a new incarnation from the first k durable batches (k<0: all).
 // The previous incarnation must have been closed or fenced.
 func (s *SimStore) Reopen(k int) *SimStore {
+	if s.dir != "" {
+		// on-disk base: reopen the directory (the log is kept only for bookkeeping)
+		return &SimStore{base: newBaseStoreAt(s.dir), log: s.log, occ: map[string]int{}, failAt: map[string]error{}, dir: s.dir,
+			OnWrite: s.OnWrite, OnCommit: s.OnCommit}
+	}
 	s.log.mu.Lock()
 	if k < 0 || k > len(s.log.batches) {
 		k = len(s.log.batches)
@@ -447,8 +484,11 @@ func (t *simTxn) Commit() error {
 	}
 	t.s.log.mu.Unlock()
 	t.done = true
-	if err == nil && len(t.writes) > 0 && t.s.OnCommit != nil {
-		t.s.OnCommit(t.writes)
+	if err == nil && len(t.writes) > 0 {
+		t.s.committed()
+		if t.s.OnCommit != nil {
+			t.s.OnCommit(t.writes)
+		}
 	}
 	return err
 }
